@@ -257,6 +257,15 @@ fn sliding_counter_step(max_limit: usize) {
 #[kani::proof]
 #[kani::unwind(4)]
 #[kani::stub(std::time::Instant::now, env::now_stub)]
+fn sliding_counter_step_limit4() { sliding_counter_step(4) }
+#[kani::proof]
+#[kani::unwind(4)]
+#[kani::stub(std::time::Instant::now, env::now_stub)]
+fn sliding_counter_step_limit16() { sliding_counter_step(16) }
+
+#[kani::proof]
+#[kani::unwind(4)]
+#[kani::stub(std::time::Instant::now, env::now_stub)]
 fn counter_idle_recovers() {
     init_clock_secs();
     let mut s = any_counter(1000);
